@@ -10,9 +10,9 @@ git -C /repo worktree remove --force "$wt" >/dev/null 2>&1
 git -C /repo worktree add --detach "$wt" HEAD -q || exit 2
 if [[ "$change" == revert:* ]]; then
   c=${change#revert:}
-  git -C "$wt" show "$c" | git -C "$wt" apply -R || { echo "cannot revert $c"; git -C /repo worktree remove --force "$wt"; exit 2; }
+  git -C "$wt" show "$c" | git -C "$wt" apply -R || { echo "SEED $name check=- rc=NOAPPLY :: cannot revert $c"; git -C /repo worktree remove --force "$wt"; exit 2; }
 else
-  git -C "$wt" apply "$change" || { echo "patch does not apply"; git -C /repo worktree remove --force "$wt"; exit 2; }
+  git -C "$wt" apply "$change" || { echo "SEED $name check=- rc=NOAPPLY :: patch does not apply to the current tree"; git -C /repo worktree remove --force "$wt"; exit 2; }
 fi
 cd "$(dirname "$0")/.."
 for id in "$@"; do
